@@ -12,7 +12,7 @@ CHECK = {
             "ActiveUser.CloseSession:beforeTerminate; double termination of one record with a reconnect in between), each in its own process, "
             "plus 3 (quick) / 8 (thorough) seeded random overlaps of admissions (with the dispatcher's clean-up of a refused connection, whichever the tree has), closures, upload rounds "
             "(one user running out of credit so that commits carry TERMINATE verdicts) and traffic (8 goroutines x 400/2500 operations) under a watchdog. non-trivial = every case "
-            "overlaps at least two bookkeeping operations; distinct by case name",
+            "overlaps at least two bookkeeping operations; distinct by case name Plus the REAL dispatchConnection with real client handshakes: a second connection of the user dispatched while CloseSession of the last session is parked before TerminateActiveUser (database and bypass user) must be admitted.",
     "assumptions": ["operations performed while holding a bookkeeping lock that are not themselves bookkeeping-lock acquisitions (bbolt calls, "
                     "sesh.Close()) return", "a loop body is counted once in a lock program (sound for a rank argument over balanced bodies)",
                     "all per-record sessionsM instances have the same rank and no operation holds two of them (decided: S is never acquired while S is held)",
